@@ -372,6 +372,9 @@ type req struct {
 	Intent string
 	Want   zapcore.Level
 	Desc   string
+	// Pre: the request passes through a piece of middleware that has already parsed the form
+	// (r.ParseForm) before the level handler sees it
+	Pre bool
 }
 
 func genReq(g *rng.R) req {
@@ -399,7 +402,19 @@ func genReq(g *rng.R) req {
 		return rng.Pick(g, []string{"", "application/json", "text/plain", "application/json; charset=utf-8", "APPLICATION/JSON"})
 	}
 	const form = "application/x-www-form-urlencoded"
-	switch g.Intn(16) {
+	switch g.Intn(18) {
+	case 16:
+		// a content type that merely begins like the form type is not the form type: the body is JSON
+		n, l := validName()
+		b, _ := json.Marshal(map[string]string{"level": n})
+		ct := form + rng.Pick(g, []string{"+json", "-v2", "x", ".json"})
+		q := rng.Pick(g, []string{"", "", "level=" + rng.Pick(g, []string{"debug", "fatal"})})
+		return req{Method: "PUT", CT: ct, Body: string(b), Query: q, Intent: "valid", Want: l, Desc: "PUT json valid " + n + " under content type " + ct}
+	case 17:
+		// body and query name different levels in a form request: the body's wins (net/http's FormValue)
+		n, l := validName()
+		other := rng.Pick(g, []string{"debug", "fatal", "error"})
+		return req{Method: "PUT", CT: form, Body: "level=" + url.QueryEscape(n), Query: "level=" + other, Intent: "valid", Want: l, Desc: "PUT form body valid " + n + " with another level in the query", Pre: g.Bool()}
 	case 0, 1:
 		return req{Method: "GET", Intent: "get", Desc: "GET"}
 	case 2, 3:
@@ -412,7 +427,7 @@ func genReq(g *rng.R) req {
 		return req{Method: "PUT", CT: jsonCT(), Body: string(b), Intent: "valid", Want: l, Desc: "PUT json valid " + n}
 	case 4:
 		n, l := validName()
-		return req{Method: "PUT", CT: form, Body: "level=" + url.QueryEscape(n), Intent: "valid", Want: l, Desc: "PUT form body valid " + n}
+		return req{Method: "PUT", CT: form, Body: "level=" + url.QueryEscape(n), Intent: "valid", Want: l, Desc: "PUT form body valid " + n, Pre: g.Bool()}
 	case 5:
 		n, l := validName()
 		if g.P(1, 3) {
@@ -434,7 +449,7 @@ func genReq(g *rng.R) req {
 		b, _ := json.Marshal(map[string]string{"level": n})
 		return req{Method: "PUT", CT: jsonCT(), Body: string(b), Intent: "invalid", Desc: "PUT json invalid name"}
 	case 7:
-		return req{Method: "PUT", CT: form, Body: "level=" + url.QueryEscape(badName()), Intent: "invalid", Desc: "PUT form invalid name"}
+		return req{Method: "PUT", CT: form, Body: "level=" + url.QueryEscape(badName()), Intent: "invalid", Desc: "PUT form invalid name", Pre: g.Bool()}
 	case 8:
 		body := rng.Pick(g, []string{"", "{}", `{"level":null}`, `{"lvl":"debug"}`, `{"level":1}`, `{"level":["debug"]}`, `{"level":{"a":1}}`, `[`, `{"level":"debug"`, "level=debug", "null", `"debug"`, "\x00\x01"})
 		return req{Method: "PUT", CT: jsonCT(), Body: body, Intent: "invalid", Desc: "PUT json malformed/missing: " + body}
@@ -497,7 +512,7 @@ func httpSeqs(r *ev.Run) {
 		child := logger.With(zap.Int("c", 1)).Named("n")
 		var srv *httptest.Server
 		if i%97 == 0 {
-			srv = httptest.NewServer(al)
+			srv = httptest.NewServer(preparse(al))
 		}
 		var trace []string
 		for step, k := 0, g.Range(1, 30); step < k; step++ {
@@ -595,6 +610,18 @@ func clip(s string) string {
 	return s
 }
 
+// preparse is a piece of middleware in front of the level handler: for marked requests it has looked
+// at the form (as an authentication or CSRF check would) before the handler runs.
+func preparse(h http.Handler) http.Handler {
+	return http.HandlerFunc(func(w http.ResponseWriter, r *http.Request) {
+		if r.Header.Get("X-Verif-Preparse") != "" {
+			_ = r.ParseForm()
+			_ = r.FormValue("token")
+		}
+		h.ServeHTTP(w, r)
+	})
+}
+
 func do(al zap.AtomicLevel, srv *httptest.Server, q req) (int, []byte, bool) {
 	target := "/"
 	if q.Query != "" {
@@ -607,6 +634,9 @@ func do(al zap.AtomicLevel, srv *httptest.Server, q req) (int, []byte, bool) {
 		}
 		if q.CT != "" {
 			rq.Header.Set("Content-Type", q.CT)
+		}
+		if q.Pre {
+			rq.Header.Set("X-Verif-Preparse", "1")
 		}
 		resp, err := http.DefaultClient.Do(rq)
 		if err != nil {
@@ -626,8 +656,11 @@ func do(al zap.AtomicLevel, srv *httptest.Server, q req) (int, []byte, bool) {
 	if q.CT != "" {
 		rq.Header.Set("Content-Type", q.CT)
 	}
+	if q.Pre {
+		rq.Header.Set("X-Verif-Preparse", "1")
+	}
 	rec := httptest.NewRecorder()
-	al.ServeHTTP(rec, rq)
+	preparse(al).ServeHTTP(rec, rq)
 	return rec.Code, rec.Body.Bytes(), true
 }
 
